@@ -659,6 +659,10 @@ def lf1(F, R):
     skip = (("LfnBuffer::push", "unwrap:Err", "LF2 (iterator length bound <= capacity of the staging Vec)"),
             ("LfnBuffer::push", "assert:Overflow:Sub", "LF3 (free >= encoded.len() guard; exactly one `free -= 1` per byte of the encoded char)"),
             ("LfnBuffer::push", "assert:BoundsCheck", "LF3 (store index is `free` after the decrement, free < free_0 <= inner.len())"))
+    from .rules_lfn import window_store
+    win = window_store(fn)
+    if win is not None and not win["problems"]:
+        skip = skip + (("LfnBuffer::push", "index:range", "LF3 (window form: inner[free - len .. free] behind the space guard, free <= inner.len())"),)
     _o, a, b = _run_region(F, R, I, fn, [mk_buffer(I, st), buf], st, "push", skip=skip)
     total_ok += a
     total_bad += b
